@@ -226,6 +226,11 @@ def run(rep, idx, tier):
 def own(rep, rule, c, env, r, target, value, what):
     ds = c.drivers_of(c.parse(target, env))
     if not ds:
+        parts = c.overlapping(c.parse(target, env))
+        if parts:
+            rep.unk(rule, c.fi.site, what, f"{target} is driven bit by bit / slice by slice ({len(parts)} group(s)); the rule compares "
+                    "the vector as a whole and does not assemble it")
+            return
         rep.bad(rule, c.fi.site, what, f"{target} is never driven")
         return
     if {d.domain for d in ds} != {"comb"}:
